@@ -18,7 +18,7 @@ RULE = (
     "distinct = distinct cell tuples / distinct sequence shapes"
 )
 ASSUMPTIONS = ["EMPTY_ACK_DELAY is 0.1 s (read from the library at run time)", "simulated one-way latency 1 ms"]
-REQUIRED_MONITORS = {"table_cell": 500, "table_cell_busy_peer": 100, "mid_boundary": 100, "duplicate_delivery": 100, "con_never_to_multicast": 500, "sequence": 50, "noninterference": 50}
+REQUIRED_MONITORS = {"table_cell": 500, "table_cell_busy_peer": 100, "mid_boundary": 100, "duplicate_delivery": 100, "token_reuse": 50, "con_never_to_multicast": 500, "sequence": 50, "noninterference": 50}
 EXHAUSTIVE = {"single_message_table": "types x codes x token known/unknown x unicast/multicast x delays x No-Response x result class as enumerated by cells()"}
 
 CON, NON, ACK, RST = 0, 1, 2, 3
@@ -521,6 +521,14 @@ def run_shard(shard, rep, only=None):
         if only is not None and only != case:
             continue
         run_poison(mis, shard["seed"] + j, rep, case)
+    # ---- requests reusing a token before the earlier one was acknowledged ------------------------
+    for j, spec in enumerate(token_reuse_specs()):
+        if j % of != idx:
+            continue
+        case = ["token-reuse", j]
+        if only is not None and only != case:
+            continue
+        run_token_reuse(spec, shard["seed"] * 31 + j, rep, case)
     # ---- targeted: aiocoap as sender towards multicast -----------------------------------
     case = ["mc-send"]
     if only is None or only == case:
@@ -591,6 +599,76 @@ def run_poison(mis, seed, rep, case):
     if not answered or not handled:
         rep.violation("misfit-not-ignored/request-coded-%s-occupies-mid" % ("ack" if typ == ACK else "rst"), "a request-coded %s (code and type do not fit, to be ignored) made the node drop a later genuine CON request with the same message ID as a duplicate" % ("ACK" if typ == ACK else "RST"), {"wire": node.net.dump(12), "handler_log": repr(node.hlog)}, case)
     rep.case(("poison", typ, code), nontrivial=True)
+
+
+def run_token_reuse(spec, seed, rep, case):
+    """Two or three confirmable requests that carry the same token under different message IDs, in quick succession
+    (a client that abandons a request and reuses its token, or one that uses the empty token throughout). Whether
+    the abandoned request is still answered is not judged; the message layer owes each of them exactly one ACK
+    under its own message ID, at the latest at EMPTY_ACK_DELAY after it arrived."""
+    from harness import scenario, refcodec as rc
+    import asyncio
+    from aiocoap.numbers.constants import TransportTuning
+
+    ead = TransportTuning().EMPTY_ACK_DELAY
+    token, gaps, delays = spec
+    box = {}
+
+    async def main(loop):
+        node = await Node(loop).start(0)
+        sent = []
+        t0 = loop.time()
+        at = 0.0
+        for k, (gap, d) in enumerate(zip(gaps, delays)):
+            at += gap
+            m = rc.Msg(rc.CON, 1, 0x4100 + k, token, ((11, b"r"),), b"d=%s;c=69;p=x" % repr(d).encode())
+            loop.call_at(t0 + at, node.peer.send, node.S, m)
+            sent.append((m, t0 + at + 0.001))
+        await asyncio.sleep(at + 5.0)
+        box.update(node=node, sent=sent)
+        await node.stop()
+        return True
+
+    res = scenario.run(main, seed)
+    if not res.ok:
+        if res.horizon:
+            rep.inconc("horizon in token-reuse scenario")
+        else:
+            rep.violation("token-reuse/scenario-failed", "scenario did not complete: hang=%r error=%r" % (res.hang, res.error), {"spec": repr(spec)}, case)
+        return
+    node = box["node"]
+    rep.monitor("token_reuse")
+    for m, t_arr in box["sent"]:
+        acks = []
+        seen = set()
+        for e in node.net.log:
+            if e.kind == "send" and e.src == node.S and e.msg is not None and e.msg.mid == m.mid and e.msg.type in (rc.ACK, rc.RST) and e.data not in seen:
+                seen.add(e.data)
+                acks.append((round(e.t - t_arr, 6), e.msg.type, e.msg.code))
+        ok = len(acks) == 1 and acks[0][1] == rc.ACK and acks[0][0] <= ead + 2e-6
+        if not ok:
+            rep.violation(
+                "token-reuse/%s" % ("never-acknowledged" if not acks else "acknowledged-more-than-once" if len(acks) > 1 else "acknowledged-wrongly"),
+                "a confirmable request whose token was reused by a later request before it was acknowledged was not acknowledged exactly once under its own message ID within EMPTY_ACK_DELAY",
+                {"spec": repr(spec), "mid": m.mid, "acks": acks, "wire": node.net.dump(30)},
+                case,
+            )
+    if res.loop_exceptions:
+        rep.violation("loop-exception/" + str(res.loop_exceptions[0].get("exc_type")), "an exception reached the event loop while processing requests reusing a token", {"spec": repr(spec), "loop": res.loop_exceptions[:2]}, case)
+    check_multicast_invariant(node, rep, case, rc)
+    rep.case(("token-reuse", len(token), tuple(gaps), tuple(delays)), nontrivial=True)
+
+
+def token_reuse_specs():
+    out = []
+    for token in (b"", b"\x77", b"\x01\x02\x03\x04\x05\x06\x07\x08"):
+        for gap in (0.0, 0.01, 0.05, 0.099, 0.15):
+            for d1 in (0.0, 0.05, 0.3, 2.0):
+                for d2 in (0.0, 0.05, 0.3):
+                    out.append((token, (0.0, gap), (d1, d2)))
+        out.append((token, (0.0, 0.01, 0.01), (0.3, 0.3, 0.0)))
+        out.append((token, (0.0, 0.05, 0.2), (2.0, 0.05, 0.3)))
+    return out
 
 
 def run_mc_send(seed, rep, case):
